@@ -13,6 +13,7 @@ D = decimal.Decimal
 ASSUMPTIONS = [
     'the un-pivoted aggregate result fed to the model is the implementation\'s own result of the same query without PIVOT BY (that part is C02/C03)',
     'column names are compared after rendering the model\'s (key, column) header entries with Python str() as the executor does',
+    'translator tie (C15_source_pivot): only the statements `pivoted = []` .. `return columns, pivoted` of the EvalPivot branch are translated (sort, groupby, slice assignment; library semantics in coq/Model/PrimsExec.v, out[lo:hi] = vals as "stmt:setslice"); the statements computing keys, `other` (a lambda) and the header (set comprehension, f-strings, itertools.product) are outside the PyMini fragment: the key list enters as the model\'s pivot_keys, `other` as an opaque callable assumed to return the remaining columns',
 ]
 KEYTYPES = [T_INT, T_STR, T_DATE, T_DEC, T_BOOL]
 
@@ -336,3 +337,12 @@ def _unjson(v, t):
     if t == T_DATE:
         return datetime.date.fromisoformat(v)
     return v
+
+
+def generate():
+    """translator tie: regenerate coq/Gen/SrcExec.v (incl. the filling part of the PIVOT BY branch of execute_query) from
+    the source of the imported code (py2mini, src_exec.py)"""
+    from . import gen_src, src_exec
+    out = dict(gen_src.generate('exec'))
+    out['src_exec_outside_fragment'] = dict(getattr(src_exec.ExecTranslator, 'skipped', {}))
+    return out
